@@ -366,7 +366,7 @@ def rule_setters(ctx):
     rule_set_property(ctx, "O10.setters", mode="errors")
 
 
-def rule_delimited_error_helper(ctx):
+def rule_delimited_error_helper(ctx, check_location=False):
     """
     _raise_delimited_data_format_error turns a csv failure into a DataFormatError for EVERY line number the csv reader
     may report (0 = before the first line, 1 = first line, later lines): the location arithmetic must not trip the
@@ -388,6 +388,15 @@ def rule_delimited_error_helper(ctx):
             outcome = "returned"
         except AbsRaise as raised:
             outcome = "raise " + exc_name(raised.value)
+            location = raised.value.attrs.get("_location") if isinstance(raised.value, Obj) else None
+            line = location.attrs.get("_line") if isinstance(location, Obj) else None
+            line = line.value if isinstance(line, RInt) else line
+            # csv counts the lines it has read: a failure while reading line k is reported with line_num = k, and
+            # locations count from 0 (they are shown + 1)
+            expected_line = max(line_number - 1, 0)
+            if check_location and outcome == "raise DataFormatError" and line != expected_line:
+                outcome = "raise DataFormatError naming line %s" % (None if line is None else line + 1)
+                return ("line_num=%d" % line_number, outcome, "raise DataFormatError naming line %d" % (expected_line + 1))
         return ("line_num=%d" % line_number, outcome, "raise DataFormatError")
 
     decide(ctx, "O10.csv-error", "csv failure -> DataFormatError for every line number", qualname, cell, min_cells=5)
@@ -430,6 +439,6 @@ def rule_field_rows(ctx):
     rule_field_row(ctx, "O10.fieldrow", mode="errors")
 
 
-from .common import rule_module_state  # noqa: E402
+from .common import rule_module_state, rule_undefined_attributes  # noqa: E402
 
-RULES = [rule_escapes, rule_main_mapping, rule_oserror_stays_oserror, rule_range_constructors, rule_setters, rule_field_rows, rule_delimited_error_helper, rule_definite_assignment, rule_module_state]
+RULES = [rule_escapes, rule_main_mapping, rule_oserror_stays_oserror, rule_range_constructors, rule_setters, rule_field_rows, rule_delimited_error_helper, rule_definite_assignment, rule_undefined_attributes, rule_module_state]
